@@ -392,4 +392,18 @@ example :
   · unfold OuterOk; decide +kernel
   · unfold ExprsOk; decide +kernel
 
+open DW.GenLoadV1 in
+/-- **C15 (v1 skeleton, premises about the generator's inputs only).**  For every class: if (1) no chain of alternative keys / paths
+is empty, (2) the outside names the skeleton uses are in the closure, the globals or the builtins, (3) no value expression binds one
+of the fourteen outside names the skeleton can use, and (4) whatever a value expression reads besides `v1` is held outside and is
+not a name the body can bind (one of its seven fixed locals, a field variable `__<f>__v`, a name some value expression binds), then
+the generated function is well scoped under Python's rule.  That the skeleton's outside names never collide with what the body binds
+is proved (`outerOk_of`: none of them is a fixed local, none ends in `v` as every field variable does), not assumed. -/
+theorem C15_genloadv1_well_scoped_inputs (printable : Char → Bool) (g : VIn) (outer : List S) (hk : LookupsOk g)
+    (h1 : ∀ n ∈ skeletonOuter g, n ∈ outer)
+    (h2 : ∀ f ∈ g.fields, ∀ n, (n ∈ f.exprWrites ∨ n ∈ f.exprBinds) → n ∉ allOuter)
+    (h3 : ∀ f ∈ g.fields, ∀ n ∈ f.exprReads, n = "v1".toList ∨ (n ∈ outer ∧ ¬ Bindable g n)) :
+    wellScoped printable g outer = true :=
+  wellScoped_inputs printable g outer hk h1 h2 h3
+
 end DW.Props.C15
